@@ -292,10 +292,21 @@ void history(vf::Ctx & c)
   // monitor is replaced by a copy of itself; -1 = never
   const int copyAt = c.s.flag("monitor_continued_on_a_copy", 1, 3) ? static_cast<int>(c.s.i("copy_before_event", 0, std::max<int>(0, static_cast<int>(evs.size()) - 1))) : -1;
   if (copyAt >= 0) {c.label("monitor-continued-on-a-copy");}
+  // the expected rate is given to the constructor / to initialize() on a default-constructed monitor / to initialize()
+  // after another rate had been given first (nothing was fed in between)
+  const size_t initBy = c.s.pick("monitor_initialised_by", {2, 1, 1});
+  c.labelIf(initBy != 0, "monitor-default-constructed-then-initialize()");
   c.commit();
 
   // ------------------------------------------------ execution against the event-list model ----------------------
-  std::unique_ptr<RateMonitoring> monHolder(new RateMonitoring(cfg.rate));
+  std::unique_ptr<RateMonitoring> monHolder;
+  if (initBy == 0) {
+    monHolder.reset(new RateMonitoring(cfg.rate));
+  } else {
+    monHolder.reset(new RateMonitoring());
+    if (initBy == 2) {monHolder->initialize(cfg.rate < 10 ? 150.0 : 1.0);}
+    monHolder->initialize(cfg.rate);
+  }
   CheckupEqualToRate ce(cfg.name, cfg.rate, cfg.eps);
   CheckupGreaterThanRate cg(cfg.name, cfg.rate, cfg.eps);
 
